@@ -168,6 +168,14 @@ def def_task(t):
                 if c.obs.verdict == "ACC":
                     viols.append(E.viol("C20", "accepts-invalid", c, "EXT_CMD", "custom", "require-in-other-case", None,
                                         "use accepted although only %r was required (the command needs %r)" % (wrong, EXT)))
+            # ... while the extension named in any require shape loads it: after repeated / already loaded names, in a second require
+            use = body + tuple(required_syms(pos)) + (("{", "}") if role == "test" else (";",))
+            for req in ((("require", "[", '"fileinto"', ",", '"fileinto"', ",", '"%s"' % EXT, "]", ";")),
+                        (("require", '"fileinto"', ";", "require", "[", '"fileinto"', ",", '"%s"' % EXT, "]", ";")),
+                        (("require", "[", '"%s"' % EXT, ",", '"%s"' % EXT, "]", ";"))):
+                c = E.execute(req + use, commands=(table, T.KNOWN_EXTENSIONS + (EXT,)), want_config=False)
+                st.executions += 1
+                viols.extend(E.oracle_c01(c))
         # an unregistered sibling name stays unknown
         w = ((("if", sibling) if role == "test" else (sibling,)) + tuple(required_syms(pos)) +
              (("{", "}") if role == "test" else (";",)))
